@@ -126,6 +126,45 @@ func rejectsNonEmptyQuery(p *Prog, fn *ssa.Function, fold func(ssa.Value, *PathC
 			}
 		}
 	}
+	// the raw query itself is empty: rawParts.RawQuery == "" (or, inside a helper, its string parameter);
+	// url.ParseQuery skips empty pairs, so "?&" has no arguments but is a query all the same
+	rawKeys := map[string]bool{} // key -> polarity meaning "raw query is empty"
+	isRawQuery := func(v ssa.Value) bool {
+		v = stripConvs(v)
+		if _, f := loadedField(v); f != nil && f.Name() == "RawQuery" && f.Pkg() != nil && f.Pkg().Path() == "net/url" {
+			return true
+		}
+		if depth > 0 && len(fn.Params) == 1 && v == ssa.Value(fn.Params[0]) {
+			return true
+		}
+		return false
+	}
+	for _, b := range fn.Blocks {
+		iff, ok := b.Instrs[len(b.Instrs)-1].(*ssa.If)
+		if !ok {
+			continue
+		}
+		bo, ok := iff.Cond.(*ssa.BinOp)
+		if !ok {
+			continue
+		}
+		// condKey normalises x != y to the key of x == y and x > y to the key of y < x, so the truth value
+		// of the key that means "the query is empty" does not depend on the spelling of the test
+		key, _ := kk.condKey(iff.Cond)
+		if s, isS := constString(bo.Y); isS && s == "" && isRawQuery(bo.X) && (bo.Op == token.EQL || bo.Op == token.NEQ) {
+			rawKeys[key] = true
+		}
+		if lc, isL := bo.X.(*ssa.Call); isL && isBuiltinCall(lc, "len") && isRawQuery(lc.Call.Args[0]) {
+			if z, isZ := constInt(bo.Y); isZ && z == 0 {
+				switch bo.Op {
+				case token.EQL, token.NEQ:
+					rawKeys[key] = true
+				case token.GTR:
+					rawKeys[key] = false
+				}
+			}
+		}
+	}
 	// helper calls: library functions of one string parameter returning error
 	helperOK := map[*ssa.Call]bool{}
 	eachInstr(fn, func(b *ssa.BasicBlock, i int, in ssa.Instruction) {
@@ -144,8 +183,8 @@ func rejectsNonEmptyQuery(p *Prog, fn *ssa.Function, fold func(ssa.Value, *PathC
 			return
 		}
 		good := false
-		for key := range keys {
-			if v, known := c.Known(key); known && !v {
+		for key, emptyWhen := range rawKeys {
+			if v, known := c.Known(key); known && v == emptyWhen {
 				good = true
 			}
 		}
@@ -159,7 +198,7 @@ func rejectsNonEmptyQuery(p *Prog, fn *ssa.Function, fold func(ssa.Value, *PathC
 		}
 	}
 	q.Run()
-	return okAll, len(keys) > 0 || len(helperOK) > 0
+	return okAll, len(rawKeys) > 0 || len(helperOK) > 0
 }
 
 func foldFields(vals map[*types.Var]int64) func(cond ssa.Value, c *PathCtx) (bool, bool) {
@@ -540,6 +579,37 @@ func runC17(r *Run) {
 	dl := r.Rule("C17.dial", "DialURI over all scheme x transport combinations: stun -> plain UDP; turn -> plain UDP, or TCP for transport tcp; turns+udp -> DTLS over DialUDP; stuns|turns + tcp -> TLS over TCP; ServerName = Host set unconditionally on a private copy of the config; every other combination returns ErrUnsupportedURI without dialling", 15)
 	checkDialTable(r, dl, dial, uc, schemeF, hostF, protoF)
 	dl.Done()
+
+	// ---- every network operation of DialURI goes through the configured Net
+	nt := r.Rule("C17.net", "DialURI and the library functions it calls never dial, resolve, look up or listen through the package-level functions of package net: the peer that is reached is the one the configured Net yields for the URI's host and transport", 1)
+	if dial != nil {
+		cl := p.CG().Closure([]*ssa.Function{dial}, func(f *ssa.Function) bool { return p.isLibFn(f) })
+		nCalls := 0
+		for _, f := range cl {
+			r.Analysed(f)
+			eachInstr(f, func(b *ssa.BasicBlock, i int, in ssa.Instruction) {
+				ci, ok := in.(ssa.CallInstruction)
+				if !ok {
+					return
+				}
+				if ci.Common().IsInvoke() {
+					nCalls++
+					return
+				}
+				sc := ci.Common().StaticCallee()
+				if sc == nil || sc.Pkg == nil || sc.Pkg.Pkg.Path() != "net" || sc.Signature.Recv() != nil {
+					return
+				}
+				for _, pre := range []string{"Dial", "Resolve", "Lookup", "Listen"} {
+					if strings.HasPrefix(sc.Name(), pre) {
+						nt.Violation(f, instrPos(in), "net."+sc.Name(), "the operating system's network is used directly instead of the configured Net: with an injected network (or a proxying one) the host is resolved or dialled somewhere else than the other transports of the same URI")
+					}
+				}
+			})
+		}
+		nt.Instance(fnName(dial), true, map[string]int{"closure_functions": len(cl), "interface_calls": nCalls})
+	}
+	nt.Done()
 }
 
 func checkParsePerScheme(r *Run, rc *RuleCtx, parse *ssa.Function, uc *uriConsts, schemeF, protoF *types.Var, isSuccess func(*ssa.Return, *PathCtx) bool) {
@@ -659,7 +729,8 @@ func checkParsePerScheme(r *Run, rc *RuleCtx, parse *ssa.Function, uc *uriConsts
 		if len(dl) != 1 || dl[0] != wantPort[name] {
 			rc.Violation(parse, parse.Pos(), fmt.Sprintf("default port of %s URIs: %v", name, dl), "must be "+wantPort[name][1:])
 		}
-		if queryUnchecked {
+		if queryUnchecked && strings.HasPrefix(name, "turn") {
+			// (for stun/stuns the rule below decides, whatever form the test of the raw query takes)
 			rc.Violation(parse, parse.Pos(), "query of "+name+" URIs not examined", "a success path does not parse the query: stun/stuns URIs with a query (or turn URIs with unknown keys) are accepted")
 		}
 		if nSucc == 0 {
@@ -713,6 +784,13 @@ func checkParseProto(r *Run, rc *RuleCtx, uc *uriConsts) {
 		// len(qArgs) > 1 / > 0
 		if lc, ok := bo.X.(*ssa.Call); ok && isBuiltinCall(lc, "len") && bo.Op == token.GTR {
 			if n, ok := constInt(bo.Y); ok {
+				// len(qArgs["transport"]) > 1: the values of the one key (url.ParseQuery folds repeated keys)
+				if lk, isLk := lc.Call.Args[0].(*ssa.Lookup); isLk && !lk.CommaOk {
+					if ks, isS := constString(lk.Index); isS && ks == "transport" && n == 1 {
+						conds = append(conds, condOfInterest{"repeat", key, pol})
+					}
+					return
+				}
 				if n == 1 {
 					conds = append(conds, condOfInterest{"multi", key, pol})
 				}
@@ -754,7 +832,8 @@ func checkParseProto(r *Run, rc *RuleCtx, uc *uriConsts) {
 	gotMulti = seen["multi"] && !bad["multi"]
 	gotExtra = seen["extra"] && !bad["extra"]
 	gotUnknown = seen["unknown"] && !bad["unknown"]
-	for n, ok := range map[string]bool{"more than one query key rejected": gotMulti, "unknown transport value rejected": gotUnknown, "keys other than transport rejected": gotExtra, "the key is \"transport\"": gotKey} {
+	gotRepeat := seen["repeat"] && !bad["repeat"]
+	for n, ok := range map[string]bool{"a repeated transport key rejected (Get reads only the first value)": gotRepeat, "more than one query key rejected": gotMulti, "unknown transport value rejected": gotUnknown, "keys other than transport rejected": gotExtra, "the key is \"transport\"": gotKey} {
 		rc.Instance("parseProto|"+n, true, nil)
 		if !ok {
 			rc.Violation(fn, fn.Pos(), "parseProto: "+n, "RFC 7065: the only query is ?transport=udp|tcp")
